@@ -22,8 +22,9 @@ META = {
     'assumptions': ['ASCII letters only in case-varied positions (Python re.I folds a few non-ASCII letters; outside the statement)'],
 }
 
-# svg/circle/g: html5lib puts them (and what they contain) into the SVG namespace inside an HTML document
-NAMES = ('div', 'Div', 'DIV', 'span', 'SPAN', 'p', 'b', 'B', 'svg', 'circle', 'g')
+# svg/circle/g/foreignObject/clipPath: html5lib puts them (and what they contain) into the SVG namespace inside an
+# HTML document and stores the camel-cased names with their capitals
+NAMES = ('div', 'Div', 'DIV', 'span', 'SPAN', 'p', 'b', 'B', 'svg', 'circle', 'g', 'foreignObject', 'clipPath')
 ATTR_NAMES = ('title', 'TITLE', 'data-x', 'Data-X', 'type', 'Type', 'lang')
 ATTR_VALUES = ('abc', 'ABC', 'Abc', 'text', 'TEXT', 'b c', 'B c', 'x-y', 'X-y')
 FLAVOURS = ('html.parser', 'lxml', 'html5lib', 'html-api', 'xhtml', 'lxml-xml', 'xml-api')
